@@ -20,6 +20,8 @@ Families
          variable part is absent, so `-std=c++20` and `-std=gnu++20` are both run and
          either token sequence is accepted
   dir    directive sequences (#undef / redefinition / push_macro / pop_macro / -D)
+  chain  paste chains op##op##op(##op) over a three-parameter macro and a literal, with
+         every combination of empty / non-empty arguments (placemarkers inside a chain)
   self   bodies that mention the macro itself (time-boxed, small batches: a runaway
          expansion must not starve the rest)
 
@@ -107,7 +109,7 @@ def arg_text(a, sig, k):
     if a == "M()":
         # invocation of the same macro as an argument, itself with plain arguments
         inner = {"f0": "", "f1": "p", "f2": "p,q", "v0": "p,q", "v1": "p,q", "n0": "p,q",
-                 "n1": "p,q"}[sig]
+                 "n1": "p,q", "f3": "p,q,r"}[sig]
         return "M%d(%s)" % (k, inner)
     return ARGD[a].replace("{k}", str(k))
 
@@ -191,6 +193,29 @@ def gen_fn(ln, thorough, which):
                 yield dict(fam=fam, sig=sig, body=list(body), form=form, args=list(args))
 
 
+CHAIN_PARAMS = ["x", "y", "z"]
+CHAIN_OPS = ["x", "y", "z", "k"]           # three parameters and a literal identifier
+CHAIN_CTX = [((), ()), (("7",), ()), ((), ("7",)), (("+",), ("+",))]
+
+
+def gen_chain(nops, thorough):
+    """Paste CHAINS: op1##op2##...##opN (N = nops >= 3) over the parameters of a
+    three-parameter macro and a literal, alone or between other body tokens, invoked
+    with every combination of empty / identifier / number (thorough: / macro name)
+    arguments -- an empty operand in the middle of a chain is a placemarker that must
+    neither break nor glue the chain."""
+    vals = ["id", "empty", "num"] + (["O"] if thorough else [])
+    argsets = list(itertools.product(vals, repeat=3))
+    for ops in itertools.product(CHAIN_OPS, repeat=nops):
+        if not set(ops) & set(CHAIN_PARAMS):
+            continue
+        chain = "##".join(ops)
+        for pre, post in CHAIN_CTX:
+            for args in argsets:
+                yield dict(fam="chain", sig="f3", body=list(pre) + [chain] + list(post),
+                           form="call", args=list(args))
+
+
 def gen_self(ln, thorough):
     """Bodies that mention the macro itself."""
     nodes = [s for s, _ in obj_nodes(True)]
@@ -228,6 +253,8 @@ def stages(tier):
         st.append(("fn", ln, lambda ln=ln: gen_fn(ln, thorough, "fn")))
     for ln in range(1, n + 1):
         st.append(("gnu", ln, lambda ln=ln: gen_fn(ln, thorough, "gnu")))
+    for nops in range(3, (4 if thorough else 3) + 1):
+        st.append(("chain", nops, lambda nops=nops: gen_chain(nops, thorough)))
     for ln in range(1, n + 1):
         st.append(("self", ln, lambda ln=ln: gen_self(ln, thorough)))
     return st
@@ -277,6 +304,8 @@ def render(c, k):
     sig = c["sig"]
     if sig == "obj":
         nd = dict(obj_nodes(True))
+    elif sig == "f3":
+        nd = {s: s for s in c["body"]}        # chain family: nodes are written as spelled
     else:
         nd = dict(fn_nodes(sig, True))
     body = " ".join(nd[s] for s in c["body"]).replace("{k}", K)
@@ -289,7 +318,8 @@ def render(c, k):
     if sig == "obj":
         lines.append(("#define M%s %s" % (K, body)).rstrip())
     else:
-        lines.append(("#define M%s(%s) %s" % (K, ",".join(SIGS[sig]), body)).rstrip())
+        params = CHAIN_PARAMS if sig == "f3" else SIGS[sig]
+        lines.append(("#define M%s(%s) %s" % (K, ",".join(params), body)).rstrip())
     lines.append("int __case_%s__;" % K)
     form = c["form"]
     if form == "use":
@@ -616,7 +646,8 @@ def explore(ck):
              "differs from the tokens as written, i.e. a macro replacement really took place, "
              "and both preprocessors agree on it",
         exhaustive=True,
-        bound="completed per family (body length in nodes; directive-sequence length for dir): %s"
+        bound="completed per family (body length in nodes; directive-sequence length for dir; "
+              "operands per paste chain for chain): %s"
               % completed,
         assumptions=["gcc 12 -E -P -std=c++20 is the conforming preprocessor; for `,##__VA_ARGS__` "
                      "(and in the self family) either the ISO (-std=c++20) or the GNU "
